@@ -6,7 +6,7 @@ From TLV Require Import Base.Shape Base.PyList Base.Tensor Base.BigSum Base.Ops 
   Proofs.FactorizedProofs Proofs.FactorizedProofs2 Proofs.FactorizedProofs3 Proofs.FactorizedProofs4
   Proofs.FactorizedProofs5 Proofs.FactorizedProofs6 Proofs.FactorizedProofs7 Proofs.FactorizedProofs8
   Proofs.FactorizedProofs9 Proofs.FactorizedProofs10 Proofs.FactorizedProofs11 Proofs.FactorizedProofs12 Proofs.FactorizedProofs13 Proofs.FactorizedProofs14
-  Proofs.BaseProofs6 Proofs.FactorizedProofs15 Proofs.FactorizedProofs16 Proofs.FactorizedProofs17 Proofs.FactorizedProofs18 Proofs.FactorizedProofs19 Proofs.FactorizedProofs20.
+  Proofs.BaseProofs6 Proofs.FactorizedProofs15 Proofs.FactorizedProofs16 Proofs.FactorizedProofs17 Proofs.FactorizedProofs18 Proofs.FactorizedProofs19 Proofs.FactorizedProofs20 Proofs.FactorizedProofs21.
 Import ListNotations.
 
 Definition is_ring {F : Type} (Op : fops F) : Prop :=
@@ -95,7 +95,7 @@ Theorem C03_tt_to_tensor : forall (F : Type) (Op : fops F), is_ring Op ->
   cs <> [] -> tt_cores F 1 cs ns 1 -> 0 < prod ns ->
   exists t, tt_to_tensor Op cs = Ok t /\ shape t = ns /\
     forall idx, inb ns idx -> get (f0 Op) t idx = chain F Op cs idx 0 0.
-Proof. exact tt_to_tensor_spec. Qed.
+Proof. exact tt_to_tensor_spec_v. Qed.
 Print Assumptions C03_tt_to_tensor.
 
 (* _validate_tt_tensor accepts exactly: a non-empty list of 3-D cores (r_k, n_k, r_k+1), consecutive ranks equal, both boundary
@@ -115,7 +115,7 @@ Theorem C03_tr_to_tensor : forall (F : Type) (Op : fops F), is_ring Op ->
   exists t, tr_to_tensor Op (fa :: mid ++ [fl]) = Ok t /\ shape t = (n0 :: nsm) ++ [nL] /\
     forall idx, inb ((n0 :: nsm) ++ [nL]) idx ->
       get (f0 Op) t idx = fsumn Op r0 (fun a => chain F Op ((fa :: mid) ++ [fl]) idx a a).
-Proof. exact tr_to_tensor_spec. Qed.
+Proof. exact tr_to_tensor_spec_v. Qed.
 Print Assumptions C03_tr_to_tensor.
 
 (* _validate_tr_tensor accepts exactly: at least two 3-D cores whose ranks match cyclically *)
@@ -257,7 +257,7 @@ Theorem C03_ttm_einsum_eq_core : forall (F : Type) (Op : fops F), is_ring Op ->
   forall (cs : list (tensor F)) (ns ms : list nat),
   cs <> [] -> ttm_cores F 1 cs ns ms 1 ->
   ttm_to_tensor_einsum Op cs = ttm_to_tensor Op cs.
-Proof. exact ttm_einsum_eq_core. Qed.
+Proof. exact ttm_einsum_eq_core_v. Qed.
 Print Assumptions C03_ttm_einsum_eq_core.
 
 Theorem C03_ttm_einsum_views_eq : forall (F : Type) (Op : fops F), is_ring Op ->
@@ -626,45 +626,63 @@ Theorem C03_tucker_einsum_b_eq_core : forall (F : Type) (Op : fops F), is_ring O
 Proof. exact tucker_einsum_b_eq_core. Qed.
 Print Assumptions C03_tucker_einsum_b_eq_core.
 
-(* genuine defect (known finding): the reconstruction FUNCTIONS of Tucker / TT / TT-matrix do not validate; factor sets that the
-   validators reject -- and the core tenalg routes refuse -- are silently reconstructed: by np.einsum's broadcasting of size-1
-   dimensions (Tucker), by its summing over open boundary ranks / broadcasting of inner ranks (TT-matrix), and, under both
-   backends, by tt_to_tensor when the products of the ranks happen to fit *)
-Theorem C03_tucker_einsum_broadcast_refuted :
+(* the former defect (repaired in /repo by 8b25fc6): the reconstruction FUNCTIONS of Tucker / TT / TR / TT-matrix did not validate; factor
+   sets that the validators reject were silently reconstructed -- by np.einsum's broadcasting of size-1 dimensions (Tucker), by its
+   summing over open boundary ranks / broadcasting of inner ranks (TT-matrix), and, under both backends, by tt_to_tensor / tr_to_tensor
+   when the products of the ranks happen to fit.  The former witnesses as examples: the functions now refuse them, the raw chains
+   (= the code before the repair) still show what used to come out *)
+Example C03_before_8b25fc6_tucker_einsum :
   validate_tucker bc_core1 bc_fs1 = Err /\ tucker_to_tensor Zops bc_core1 bc_fs1 None false = Err /\
-  tucker_to_tensor_einsum_b Zops bc_core1 bc_fs1 None false = Ok (mk [2; 2] [30; 66; 75; 165]%Z) /\
+  tucker_to_tensor_einsum_b Zops bc_core1 bc_fs1 None false = Err /\
   validate_tucker bc_core2 bc_fs2 = Err /\ tucker_to_tensor Zops bc_core2 bc_fs2 None false = Err /\
-  tucker_to_tensor_einsum_b Zops bc_core2 bc_fs2 None false = Ok (mk [2; 2] [33; 75; 66; 150]%Z).
-Proof. exact tucker_einsum_broadcast_refuted. Qed.
-Print Assumptions C03_tucker_einsum_broadcast_refuted.
-Theorem C03_ttm_einsum_open_boundary_refuted :
-  validate_ttm bc_ttm1 = Err /\ ttm_to_tensor Zops bc_ttm1 = Err /\
-  ttm_to_tensor_einsum Zops bc_ttm1 = Ok (mk [2; 1; 1; 2] [4; 4; 4; 4]%Z) /\
-  validate_ttm bc_ttm2 = Err /\ ttm_to_tensor Zops bc_ttm2 = Err /\
-  ttm_to_tensor_einsum Zops bc_ttm2 = Ok (mk [2; 1; 1; 2] [3; 3; 3; 3]%Z).
-Proof. exact ttm_einsum_open_boundary_refuted. Qed.
-Print Assumptions C03_ttm_einsum_open_boundary_refuted.
-Theorem C03_tt_first_boundary_refuted :
-  validate_tt bc_tt = Err /\ exists t, tt_to_tensor Zops bc_tt = Ok t /\ shape t = [3; 4].
-Proof. exact tt_first_boundary_refuted. Qed.
-Print Assumptions C03_tt_first_boundary_refuted.
+  tucker_to_tensor_einsum_b Zops bc_core2 bc_fs2 None false = Err.
+Proof. exact before_8b25fc6_tucker_einsum. Qed.
+Example C03_before_8b25fc6_ttm_einsum :
+  validate_ttm bc_ttm1 = Err /\ ttm_to_tensor Zops bc_ttm1 = Err /\ ttm_to_tensor_einsum Zops bc_ttm1 = Err /\
+  ttm_to_tensor_einsum_raw Zops bc_ttm1 = Ok (mk [2; 1; 1; 2] [4; 4; 4; 4]%Z) /\
+  validate_ttm bc_ttm2 = Err /\ ttm_to_tensor Zops bc_ttm2 = Err /\ ttm_to_tensor_einsum Zops bc_ttm2 = Err /\
+  ttm_to_tensor_einsum_raw Zops bc_ttm2 = Ok (mk [2; 1; 1; 2] [3; 3; 3; 3]%Z).
+Proof. exact before_8b25fc6_ttm_einsum. Qed.
+Example C03_before_8b25fc6_tt :
+  validate_tt bc_tt = Err /\ tt_to_tensor Zops bc_tt = Err /\ exists t, tt_to_tensor_raw Zops bc_tt = Ok t /\ shape t = [3; 4].
+Proof. exact before_8b25fc6_tt. Qed.
+Example C03_before_8b25fc6_tr :
+  validate_tr bc_tr = Err /\ tr_to_tensor Zops bc_tr = Err /\ exists t, tr_to_tensor_raw Zops bc_tr = Ok t /\ shape t = [2; 3].
+Proof. exact before_8b25fc6_tr. Qed.
 
-Theorem C03_tr_swapped_last_refuted :
-  validate_tr bc_tr = Err /\ exists t, tr_to_tensor Zops bc_tr = Ok t /\ shape t = [2; 3].
-Proof. exact tr_swapped_last_refuted. Qed.
-Print Assumptions C03_tr_swapped_last_refuted.
+(* ANY mismatch between the first factor and the first core mode / between the first two cores is refused by the einsum routes *)
+Theorem C03_tucker_einsum_mismatch_rejected : forall (F : Type) (Op : fops F) (core M : tensor F) (Ms : list (tensor F)) (c : nat) (cs' : list nat),
+  shape core = c :: cs' -> ncols M <> c -> tucker_to_tensor_einsum_b Op core (M :: Ms) None false = Err.
+Proof. exact tucker_einsum_mismatch_rejected. Qed.
+Print Assumptions C03_tucker_einsum_mismatch_rejected.
+Theorem C03_ttm_einsum_mismatch_rejected : forall (F : Type) (Op : fops F) (G1 G2 : tensor F) (rest : list (tensor F)) (a b c e a' b' c' e' : nat),
+  shape G1 = [a; b; c; e] -> shape G2 = [a'; b'; c'; e'] -> e <> a' -> ttm_to_tensor_einsum Op (G1 :: G2 :: rest) = Err.
+Proof. exact ttm_einsum_mismatch_rejected. Qed.
+Print Assumptions C03_ttm_einsum_mismatch_rejected.
 
-(* the restricted statements that do hold: a genuine mismatch (neither side of size 1) is refused by the einsum routes as well *)
-Theorem C03_tucker_einsum_mismatch_rejected_partial : forall (F : Type) (Op : fops F) (core M : tensor F) (Ms : list (tensor F)) (c : nat) (cs' : list nat),
-  shape core = c :: cs' -> ndim M = 2 -> ncols M <> c -> ncols M <> 1 -> c <> 1 ->
-  tucker_to_tensor_einsum_b Op core (M :: Ms) None false = Err.
-Proof. exact tucker_einsum_mismatch_rejected_partial. Qed.
-Print Assumptions C03_tucker_einsum_mismatch_rejected_partial.
-Theorem C03_ttm_einsum_mismatch_rejected_partial : forall (F : Type) (Op : fops F) (G1 G2 : tensor F) (rest : list (tensor F)) (a b c e a' b' c' e' : nat),
-  shape G1 = [a; b; c; e] -> shape G2 = [a'; b'; c'; e'] -> e <> a' -> e <> 1 -> a' <> 1 ->
-  ttm_to_tensor_einsum Op (G1 :: G2 :: rest) = Err.
-Proof. exact ttm_einsum_mismatch_rejected_partial. Qed.
-Print Assumptions C03_ttm_einsum_mismatch_rejected_partial.
+(* "a reconstruction function returns a tensor ONLY for a set its validator accepts": no hypothesis on the operands, any carrier, no ring
+   axiom.  TT, TR (both backends run the same code), TT-matrix under the einsum backend (core backend: C03_ttm_core_ok_validated below),
+   Tucker under the einsum backend (only if every factor that is not skipped fits its core mode; core backend: C03_tucker_core_ok_fits) *)
+Theorem C03_tt_ok_validated : forall (F : Type) (Op : fops F) (cs : list (tensor F)) (t : tensor F),
+  tt_to_tensor Op cs = Ok t -> exists shp rk, validate_tt cs = Ok (shp, rk).
+Proof. exact tt_ok_validated. Qed.
+Print Assumptions C03_tt_ok_validated.
+Theorem C03_tr_ok_validated : forall (F : Type) (Op : fops F) (cs : list (tensor F)) (t : tensor F),
+  tr_to_tensor Op cs = Ok t -> exists shp rk, validate_tr cs = Ok (shp, rk).
+Proof. exact tr_ok_validated. Qed.
+Print Assumptions C03_tr_ok_validated.
+Theorem C03_ttm_einsum_ok_validated : forall (F : Type) (Op : fops F) (cs : list (tensor F)) (t : tensor F),
+  ttm_to_tensor_einsum Op cs = Ok t -> exists shp rk, validate_ttm cs = Ok (shp, rk).
+Proof. exact ttm_einsum_ok_validated. Qed.
+Print Assumptions C03_ttm_einsum_ok_validated.
+Theorem C03_tucker_einsum_ok_fits : forall (F : Type) (Op : fops F) (core : tensor F) (fs : list (tensor F)) (skip : option nat) (t : tensor F),
+  tucker_to_tensor_einsum_b Op core fs skip false = Ok t -> tk_fits F 0 skip fs (shape core).
+Proof. exact tucker_einsum_ok_fits. Qed.
+Print Assumptions C03_tucker_einsum_ok_fits.
+Theorem C03_tucker_einsum_misfit_rejected : forall (F : Type) (Op : fops F) (core : tensor F) (fs : list (tensor F)) (skip : option nat),
+  ~ tk_fits F 0 skip fs (shape core) -> tucker_to_tensor_einsum_b Op core fs skip false = Err.
+Proof. exact tucker_einsum_misfit_rejected. Qed.
+Print Assumptions C03_tucker_einsum_misfit_rejected.
 
 (* ------------------------------------------------------------------ the reconstruction functions themselves, core routes *)
 (* "structurally invalid factor sets are rejected rather than silently reconstructed", for the reconstruction FUNCTIONS (which
@@ -707,40 +725,44 @@ Example C03_ttm_core_ok_hyps :
   0 < prod (flat_map (fun x => [d4b x; d4c x]) [(1, 2, 1, 2); (2, 1, 3, 1)]).
 Proof. cbv zeta. split; [eexists; vm_compute; reflexivity | split; [reflexivity | cbv; lia]]. Qed.
 
-(* tt_to_tensor: the restricted statement that holds next to C03_tt_first_boundary_refuted -- when the first boundary rank IS 1 (and the
-   mode sizes are positive) tt_to_tensor returns a tensor only for what _validate_tt_tensor accepts: a wrong inner rank or a wrong last
-   boundary rank always makes it raise *)
-Theorem C03_tt_ok_validated_partial : forall (F : Type) (Op : fops F) (cs : list (tensor F)) (t : tensor F) (ds : list (nat * nat * nat)),
-  tt_to_tensor Op cs = Ok t -> all_shape3 cs = Ok ds -> d3a (hd (0, 0, 0) ds) = 1 -> 0 < prod (map d3b ds) ->
+(* the reshape / dot chain of tt_to_tensor ALONE (the code before 8b25fc6, tt_to_tensor_raw): when the first boundary rank is 1 (and the
+   mode sizes are positive) it returns a tensor only for what _validate_tt_tensor accepts -- a wrong inner rank or a wrong last boundary
+   rank always makes it raise; the hypothesis cannot be dropped (C03_before_8b25fc6_tt), which is why the validator call was added *)
+Theorem C03_tt_chain_ok_validated_partial : forall (F : Type) (Op : fops F) (cs : list (tensor F)) (t : tensor F) (ds : list (nat * nat * nat)),
+  tt_to_tensor_raw Op cs = Ok t -> all_shape3 cs = Ok ds -> d3a (hd (0, 0, 0) ds) = 1 -> 0 < prod (map d3b ds) ->
   validate_tt cs = Ok (map d3b ds, map d3a ds ++ [1]).
 Proof. exact tt_ok_validated_partial. Qed.
-Print Assumptions C03_tt_ok_validated_partial.
+Print Assumptions C03_tt_chain_ok_validated_partial.
 Example C03_tt_ok_hyps :
   let cs := [mk [1; 2; 2] [1; 2; 3; 4]%Z; mk [2; 3; 1] [1; 0; 2; -1; 1; 1]%Z] in
-  (exists t, tt_to_tensor Zops cs = Ok t) /\ all_shape3 cs = Ok [(1, 2, 2); (2, 3, 1)] /\ d3a (hd (0, 0, 0) [(1, 2, 2); (2, 3, 1)]) = 1 /\
+  (exists t, tt_to_tensor_raw Zops cs = Ok t) /\ all_shape3 cs = Ok [(1, 2, 2); (2, 3, 1)] /\ d3a (hd (0, 0, 0) [(1, 2, 2); (2, 3, 1)]) = 1 /\
   0 < prod (map d3b [(1, 2, 2); (2, 3, 1)]).
 Proof. cbv zeta. split; [eexists; vm_compute; reflexivity | repeat split; cbv; lia]. Qed.
 
 (* ------------------------------------------------------------------ cp_to_unfolded with a negative mode *)
-(* cp_to_unfolded_neg w fs k models cp_to_unfolded(cp, mode=-k) as the code behaves.  Order 1: -1 is mode 0 and every other negative
-   mode is rejected (the code has an explicit branch); order >= 2: a mode below -N is rejected *)
+(* cp_to_unfolded_neg w fs k models cp_to_unfolded(cp, mode=-k) (repaired in /repo by b8d05d5).  Order 1: -1 is mode 0 and every other
+   negative mode is rejected; order N >= 2: mode -k with 1 <= k <= N IS mode N - k (so C03_cp_to_unfolded applies to it), anything else is
+   rejected *)
 Theorem C03_cp_unfolded_neg_order1 : forall (F : Type) (Op : fops F) (w : option (tensor F)) (fs : list (tensor F)) (n R : nat),
   validate_cp w fs = Ok ([n], R) ->
   cp_to_unfolded_neg Op w fs 1 = cp_to_unfolded Op w fs 0 /\ forall k, k <> 1 -> cp_to_unfolded_neg Op w fs k = Err.
 Proof. exact cp_unfolded_neg_order1. Qed.
 Print Assumptions C03_cp_unfolded_neg_order1.
+Theorem C03_cp_unfolded_neg_eq : forall (F : Type) (Op : fops F) (w : option (tensor F)) (fs : list (tensor F)) (shp : list nat) (R k : nat),
+  validate_cp w fs = Ok (shp, R) -> length shp <> 1 -> 1 <= k <= length shp ->
+  cp_to_unfolded_neg Op w fs k = cp_to_unfolded Op w fs (length shp - k).
+Proof. exact cp_unfolded_neg_eq. Qed.
+Print Assumptions C03_cp_unfolded_neg_eq.
 Theorem C03_cp_unfolded_neg_out_of_range : forall (F : Type) (Op : fops F) (w : option (tensor F)) (fs : list (tensor F)) (shp : list nat) (R k : nat),
-  validate_cp w fs = Ok (shp, R) -> length shp <> 1 -> length fs < k -> cp_to_unfolded_neg Op w fs k = Err.
+  validate_cp w fs = Ok (shp, R) -> length shp <> 1 -> (k = 0 \/ length shp < k) -> cp_to_unfolded_neg Op w fs k = Err.
 Proof. exact cp_unfolded_neg_out_of_range. Qed.
 Print Assumptions C03_cp_unfolded_neg_out_of_range.
-(* genuine defect (known finding): for order >= 2 and -N <= mode < 0 the code picks factor N + mode but khatri_rao(skip_matrix=mode) skips
-   nothing -- cp_to_unfolded(cp, -1) of a 2 x 3 tensor is a 3 x 6 matrix, not the mode-1 unfolding (3 x 2); the restricted statement that
-   holds is C03_cp_to_unfolded (modes 0 <= m < N) together with the two theorems above *)
-Theorem C03_cp_unfolded_negative_mode_refuted :
+(* the former witness (before b8d05d5: a 3 x 6 matrix, factors[-1] times the Khatri-Rao product of ALL factors) *)
+Example C03_before_b8d05d5_cp_unfolded_negative_mode :
   validate_cp None nm_fs = Ok ([2; 3], 2) /\
   cp_to_unfolded Zops None nm_fs 1 = Ok (mk [3; 2] [1; 3; 0; 2; 3; 7]%Z) /\
-  cp_to_unfolded_neg Zops None nm_fs 1 = Ok (mk [3; 6] [1; 2; 1; 3; 6; 3; 2; 6; 0; 6; 16; 2; 1; 0; 3; 3; 2; 7]%Z).
-Proof. exact cp_unfolded_negative_mode_refuted. Qed.
-Print Assumptions C03_cp_unfolded_negative_mode_refuted.
+  cp_to_unfolded_neg Zops None nm_fs 1 = Ok (mk [3; 2] [1; 3; 0; 2; 3; 7]%Z) /\
+  cp_to_unfolded_neg Zops None nm_fs 3 = Err.
+Proof. exact before_b8d05d5_cp_unfolded_negative_mode. Qed.
 Example C03_cp_unfolded_neg_order1_hyps : validate_cp (Some wW) [wA] = Ok ([3], 2).
 Proof. reflexivity. Qed.
